@@ -5,6 +5,7 @@ import (
 	"go/constant"
 	"go/token"
 	"go/types"
+	"math/bits"
 	"strings"
 
 	"golang.org/x/tools/go/ssa"
@@ -87,6 +88,9 @@ type Interp struct {
 	MaxDepth  int
 	// TraceStores enables the Stores log (off by default: cost).
 	TraceStores bool
+	// TraceArith records possibly lossy narrowing conversions and possibly
+	// overflowing multiplications/additions as events.
+	TraceArith bool
 
 	objs    []*Obj
 	symObjs map[string]*Obj
@@ -835,7 +839,9 @@ func (ip *Interp) convert(v Val, from, to types.Type) Val {
 		if !ok {
 			return NewTopInt(ip.In, tw, ts, "convert")
 		}
-		_ = fw
+		if ip.TraceArith && tw < fw && iv.Hi > mask(tw) {
+			ip.event(Event{Kind: "narrowing", Callee: fmt.Sprintf("%d->%d bits", fw, tw), Args: []Val{iv}})
+		}
 		return ip.Ops.Convert(iv, tw, fs, ts)
 	}
 	// string <-> []byte and friends: opaque
@@ -912,10 +918,20 @@ func (ip *Interp) binop(act *activation, st *State, t *ssa.BinOp) Val {
 	}
 	switch t.Op {
 	case token.ADD:
+		if ip.TraceArith {
+			if s, c := bits.Add64(xi.Hi, yi.Hi, 0); c != 0 || s > mask(w) {
+				ip.event(Event{Kind: "overflow", Callee: "add", Args: []Val{xi, yi}})
+			}
+		}
 		return o.Add(xi, yi)
 	case token.SUB:
 		return o.Sub(xi, yi)
 	case token.MUL:
+		if ip.TraceArith {
+			if h, p := bits.Mul64(xi.Hi, yi.Hi); h != 0 || p > mask(w) {
+				ip.event(Event{Kind: "overflow", Callee: "mul", Args: []Val{xi, yi}})
+			}
+		}
 		return o.Mul(xi, yi)
 	case token.QUO:
 		return o.Quo(xi, yi, signed)
